@@ -17,6 +17,11 @@ PLAN = {
         "R29: closure body lifted to a function (enhance_key); R30/R20: IndexMap::extend(labels.map(into_parts)) and into_iter().map(Label::new).collect() -> shims with the obvious contracts",
         "storing on a span is checked at the storing call (what may be stored), not that the call happens",
     ],
+    # plain test of the lifted closure's postcondition on the real crate: run when that obligation fails (replay), was demoted to
+    # undecided, or could not be extracted; a FAILING witness confirms a violation, a passing one changes nothing
+    "witnesses": [
+        {"match": r"fn enhance_key", "src": "witness_enhanced.rs", "crate": "metrics-tracing-context", "file": "metrics-tracing-context/src/lib.rs"},
+    ],
     "verus": [
         {"template": "labels.verus.rs", "tier": "quick", "rlimit": 40, "min_functions": 16},
     ],
